@@ -117,3 +117,34 @@ Proof.
   injection H as Hh Hi Hf Hr. subst h' infos' fmts' rest'.
   apply dec_fields_bounded in E2, E3. lia.
 Qed.
+
+(* ---- the recursion of read_type <-> read_value (finding stack-bcf-typed-length-nesting) ----
+   In C10's model the recursion is [dec_type]'s fuel.  A descriptor made of n length-overflow
+   bytes 0xf1, the scalar descriptor 0x11 and n value bytes 1 is ACCEPTED (type Int8, length 1)
+   and needs recursion depth n + 1: with fuel n the model fails, with fuel n + 1 it succeeds.
+   The real functions use one pair of stack frames per level, so the depth of the Rust recursion
+   is linear in the input length -- a stack overflow for n ~ 10^5 (reproduced on the crates). *)
+Lemma repeat_snoc : forall (A : Type) (x : A) n, repeat x (S n) = repeat x n ++ [x].
+Proof. intros A x. induction n as [|n IH]; [reflexivity|]. cbn [repeat app] in *. now rewrite <- IH. Qed.
+
+Theorem dec_type_nested_accepts : forall n rest,
+  dec_type (S n) (repeat 241%N n ++ 17%N :: repeat 1%N n ++ rest) = Some (1, 1, rest).
+Proof.
+  induction n as [|n IH]; intro rest.
+  - reflexivity.
+  - rewrite repeat_snoc with (x := 1%N). rewrite <- app_assoc. cbn [app].
+    change (repeat 241%N (S n)) with (241%N :: repeat 241%N n). cbn [app].
+    remember (S n) as f eqn:Ef. cbn [dec_type]. cbn zeta.
+    change (Z.of_N 241 / 16 =? 15) with true. cbv iota.
+    rewrite IH. reflexivity.
+Qed.
+
+Theorem dec_type_nested_needs_depth : forall n rest,
+  dec_type n (repeat 241%N n ++ 17%N :: repeat 1%N n ++ rest) = None.
+Proof.
+  induction n as [|n IH]; intro rest; [reflexivity|].
+  rewrite repeat_snoc with (x := 1%N). rewrite <- app_assoc. cbn [app].
+  change (repeat 241%N (S n)) with (241%N :: repeat 241%N n). cbn [app].
+  cbn [dec_type]. cbn zeta. change (Z.of_N 241 / 16 =? 15) with true. cbv iota.
+  rewrite IH. reflexivity.
+Qed.
